@@ -527,6 +527,39 @@ def char_mutants(rng: random.Random, t: str, n: int) -> list[str]:
     return out
 
 
+# characters that Python's str predicates and conversions treat like digits, letters, blanks or line breaks although pest's
+# grammar does not: isdigit()/int() digits, isalpha()/isidentifier() letters, isspace()/splitlines() separators
+EXOTIC_DIGITS = "\u00b2\u2083\u2460\u0663\uff13\u2167\u0be7"
+EXOTIC_LETTERS = "\u00e1\u00c9\u00df\u0130\u212a\uff41\u03a9\u4e2d"
+EXOTIC_SPACES = "\u00a0\u2028\u2029\u3000\u200b\x0b\x0c\x1c\x1d\x85\r\x00"
+
+
+def exotic_mutants(rng: random.Random, t: str, n: int) -> list[str]:
+    """a digit replaced by a digit-like, an identifier letter by a non-ASCII letter, a blank by a blank-like; or one of them
+    inserted anywhere"""
+    out = []
+    if not t:
+        return out
+    digs = [i for i, c in enumerate(t) if c in "0123456789"]
+    lets = [i for i, c in enumerate(t) if c.isascii() and (c.isalpha() or c == "_")]
+    blks = [i for i, c in enumerate(t) if c in " \t\n"]
+    for _ in range(n):
+        k = rng.random()
+        if k < 0.3 and digs:
+            i = rng.choice(digs)
+            out.append(t[:i] + rng.choice(EXOTIC_DIGITS) + t[i + 1 :])
+        elif k < 0.5 and lets:
+            i = rng.choice(lets)
+            out.append(t[:i] + rng.choice(EXOTIC_LETTERS) + t[i + 1 :])
+        elif k < 0.7 and blks:
+            i = rng.choice(blks)
+            out.append(t[:i] + rng.choice(EXOTIC_SPACES) + t[i + 1 :])
+        else:
+            i = rng.randrange(len(t) + 1)
+            out.append(t[:i] + rng.choice(EXOTIC_DIGITS + EXOTIC_LETTERS + EXOTIC_SPACES) + t[i:])
+    return out
+
+
 def all_char_mutants(t: str, alphabet: str = ALPHABET):
     for i in range(len(t)):
         yield t[:i] + t[i + 1 :]
@@ -575,6 +608,21 @@ def soups(rng: random.Random, n: int) -> list[str]:
         else:
             s = "r=" + rng.choice(["", "_", "@", "$", "!"]) + "{" + " ".join(rng.choice(TOKEN_POOL) for _ in range(rng.randrange(0, 10))) + "}"
         out.append(s)
+    return out
+
+
+def exotic_probe_texts() -> list[str]:
+    base = ['a = { "x"{2} }', 'a = { "x"{1,3} }', 'a = { "x"{,2} }', 'a = { "x"{2,} }', 'a = { PEEK[1..2] }', 'a = { PEEK[-1..] }',
+            "a = { '0'..'9' }", 'a1 = { b_2 }', 'a = { "\\x41" }', 'a = { "\\u{41}" }', '/// d 1\na = { b }']
+    out = []
+    for t in base:
+        for i, c in enumerate(t):
+            if c in "0123456789":
+                out += [t[:i] + x + t[i + 1 :] for x in EXOTIC_DIGITS]
+            elif c == " ":
+                out += [t[:i] + x + t[i + 1 :] for x in EXOTIC_SPACES]
+            elif c.isalpha() and c.isascii():
+                out += [t[:i] + x + t[i + 1 :] for x in EXOTIC_LETTERS[:4]]
     return out
 
 
@@ -681,6 +729,7 @@ def build_texts(prop: str, tier: str, sd: int) -> tuple[list[str], dict]:
     src: dict[str, list[str]] = collections.OrderedDict()
     src["bundled grammars"] = list(files.values())
     src["special texts (empty, blank, comment-only, every prefix of a grammar using every construct)"] = special_texts()
+    src["digit-like, letter-like and blank-like characters in every digit / letter / blank slot of small grammars"] = exotic_probe_texts()
     sent = sentences(rng, (20000 if prop == "C10" else 6000) if thorough else 2000)
     src["sentences derived from the meta-grammar (random walk, trivia at every legal place)"] = sent
     pa = printed_asts(rng, (5000 if prop == "C10" else 1500) if thorough else 400)
@@ -689,6 +738,7 @@ def build_texts(prop: str, tier: str, sd: int) -> tuple[list[str], dict]:
     for s in sent + pa:
         muts += char_mutants(rng, s, 4 if thorough else 3)
         muts += token_mutants(rng, s, 3 if thorough else 2)
+        muts += exotic_mutants(rng, s, 3 if thorough else 2)
     src["single-character and single-token mutations of the sentences and printed ASTs"] = muts
     small = [t for t in files.values() if len(t) < 3000] if not thorough else list(files.values())
     bm = []
